@@ -351,7 +351,7 @@ func c11Run(u *vfUnit) {
 		}
 	}
 	for k := range ks {
-		for _, how := range []string{"eof", "midpacket-error", "midpacket-eof", "reset", "eof-during-open", "reset-during-open"} {
+		for _, how := range []string{"eof", "midpacket-error", "midpacket-eof", "reset", "eof-during-open", "reset-during-open", "invalid-packet"} {
 			ends = append(ends, ending{k, how})
 		}
 	}
@@ -436,6 +436,17 @@ func c11Run(u *vfUnit) {
 			rs.R.Send(fr)
 			if w, dump := vfAwait(rs.S.done, 120*time.Second); w != vfDone {
 				endMsg = fmt.Sprintf("Serve did not return after its input failed mid-packet (%v)\n%s", w, vfTrim(dump, 3000))
+			}
+			rs.sEnd.Close()
+			rs.cEnd.Close()
+			<-rs.R.rdone
+		case "invalid-packet":
+			// a fourth way for a session to end: a well-framed packet that is no request (unknown type byte, or a
+			// known type with a truncated body); the server stops serving, and the connection stays up until Serve returned
+			bad := [][]byte{{0, 0, 0, 1, 0xEE}, {0, 0, 0, 5, 0xF0, 0, 0, 0, 1}, {0, 0, 0, 3, rfStat, 0, 0}, {0, 0, 0, 7, rfOpen, 0, 0, 0, 9, 0, 0}}[r.Intn(4)]
+			rs.R.Send(bad)
+			if w, dump := vfAwait(rs.S.done, 120*time.Second); w != vfDone {
+				endMsg = fmt.Sprintf("Serve did not return after an invalid packet (%v)\n%s", w, vfTrim(dump, 3000))
 			}
 			rs.sEnd.Close()
 			rs.cEnd.Close()
